@@ -31,3 +31,10 @@ pub assume_specification<'a, K, V, S, A, Q> [std::collections::HashMap::<K, V, S
                 && (forall|kk: K| #[trigger] old(m)@.contains_key(kk) && !contains_borrowed_key(Map::<K, V>::empty().insert(kk, old(m)@[kk]), k) ==> final(m)@[kk] == old(m)@[kk]),
             None => !contains_borrowed_key(old(m)@, k) && final(m)@ == old(m)@,
         });
+// a BTreeMap is determined by its contents
+pub broadcast axiom fn axiom_btreemap_ext(a: BTreeMap<String, Option<String>>, b: BTreeMap<String, Option<String>>)
+    requires #[trigger] a@ == #[trigger] b@
+    ensures a == b;
+// String keys of a BTreeMap: Ord on String is a total order consistent with Eq
+pub broadcast axiom fn axiom_string_cmp()
+    ensures #[trigger] key_obeys_cmp_spec::<String>();
